@@ -28,10 +28,19 @@ def SX_FSTR(*parts):
             if core.ENG is not None and core.ENG.msgmode:
                 items += list("<sym>")
             else:
-                raise Unsupported("f-string of symbolic number")
+                items += list(items_of(shims.sym_str(p)))
         else:
-            items += list(format(p, ""))
+            items += list(items_of(_fmt_obj(p)))
     return mk(items)
+
+
+def _fmt_obj(p):
+    """format(p, "") for a non-proxy object whose __str__ may return a SymStr (e.g. cpv.Revision)"""
+    if type(p).__format__ is object.__format__:
+        r = type(p).__str__(p)
+        if _isinstance(r, (_str, SymStr)):
+            return r
+    return format(p, "")
 
 
 def SX_FMT(v, conv, spec):
